@@ -150,3 +150,35 @@ func VfSeqAccepts(snap [4]uint64, seq uint32, prio bool) bool {
 func (s *Session) VfOutCounters() (regl, prio uint32) {
 	return s.encryption.reglSeqHandler.outSeq.Load(), s.encryption.prioSeqHandler.outSeq.Load()
 }
+
+// VfTraffic models traffic having flowed from e to peer under the current
+// keys: e's out counters advanced arbitrarily (no wrap), peer's windows are in
+// some state consistent with having received a subset of those frames.
+func (e *EncryptionSession) VfTraffic(peer *EncryptionSession) {
+	for k := 0; k < 2; k++ {
+		out, in := e.reglSeqHandler, peer.reglSeqHandler
+		if k == 1 {
+			out, in = e.prioSeqHandler, peer.prioSeqHandler
+		}
+		x := vf.U32()
+		vf.Assume(x >= out.outSeq.Load() && x < 0xFFFFFF00)
+		out.outSeq.Store(x)
+		h := vf.U32()
+		vf.Assume(h >= in.highest && h <= x)
+		in.highest = h
+		in.bitMap = vf.U64()
+	}
+}
+
+// VfNextOut is the sequence number the next frame of the class will carry.
+func (e *EncryptionSession) VfNextOut(prio bool) uint32 {
+	sh := e.reglSeqHandler
+	if prio {
+		sh = e.prioSeqHandler
+	}
+	v := sh.outSeq.Load() + 1
+	if v == 0 {
+		v = 1
+	}
+	return v
+}
